@@ -136,6 +136,12 @@ class Ctx:
         })
         if extra:
             cov.update(extra)
+        # keys whose type the evidence schema fixes
+        if not isinstance(cov.get("exhaustive", False), bool):
+            cov["exhaustive_parts"] = cov.pop("exhaustive")
+        for key in ("states", "transitions", "traces_validated_against_impl"):
+            if key in cov and not (isinstance(cov[key], int) and not isinstance(cov[key], bool) and cov[key] >= 0):
+                cov[key + "_detail"] = cov.pop(key)
         if self.discharged < 1 or self.obligations < 1:
             # nothing discharged on this run (the proof build broke): keep the record under
             # another key so that the file stays valid through the generic exploration keys
